@@ -284,9 +284,22 @@ def make_models():
         base = e.it.base
         n = len(ex.elements(ex.deref(base, st)))
         _, (kind, fid, local, proj) = base
+        if n - e.it.pos <= 64:
+            for i in range(e.it.pos, n):
+                eref = ("ref", (kind, fid, local, tuple(proj) + (("cindex", i, False),)))
+                ex.call_inplace(st, f, [("refval", clos), ("agg", (e.count + i - e.it.pos, eref))])
+            return UNIT
+        # long slices: writing element i through the container rebuilds it (O(n) per element); run the closure on one scratch cell
+        # per element instead and store the whole slice once
+        SCRATCH = -991
+        vec = ex.deref(base, st)
+        items = list(ex.elements(vec))
         for i in range(e.it.pos, n):
-            eref = ("ref", (kind, fid, local, tuple(proj) + (("cindex", i, False),)))
-            ex.call_inplace(st, f, [("refval", clos), ("agg", (e.count + i - e.it.pos, eref))])
+            st.heap[SCRATCH] = {0: items[i]}
+            ex.call_inplace(st, f, [("refval", clos), ("agg", (e.count + i - e.it.pos, ("ref", ("local", SCRATCH, 0, ()))))])
+            items[i] = st.heap[SCRATCH][0]
+        st.heap.pop(SCRATCH, None)
+        ex.write_ref(st, base, vec.with_elements(tuple(items)) if hasattr(vec, "with_elements") else ("agg", tuple(items)))
         return UNIT
 
     def m_extend_iter(ex, st, args, dest_ty, fname):
